@@ -332,11 +332,13 @@ def sample_object_to_dict(data, elem, skip=''):
         # skip `outputs` because its values are in `samples` and in `discrepancies`
         if key in ['outputs', skip]:
             continue
+        # mappings (e.g. `samples`) are copied: the conversion to python types rewrites nested
+        # mappings in place and must not touch the object that is being saved
         if key == 'meta':
             for meta_key, meta_val in elem.__dict__[key].items():
-                data[meta_key] = meta_val
+                data[meta_key] = meta_val.copy() if isinstance(meta_val, dict) else meta_val
             continue
-        data[key] = val
+        data[key] = val.copy() if isinstance(val, dict) else val
 
 
 def numpy_to_python_type(data):
